@@ -3,8 +3,8 @@
 
   Models: `OdfModel.Xhtml` (odf/odf2xhtml.py), `OdfModel.Moin` (odf/odf2moinmoin.py); helper lemmas in
   `OdfModel.XhtmlLemmas`.  Everything here is PARTIAL BY CONSTRUCTION: only the converters' supported vocabulary is
-  modelled (`Supported`, `Block`/`Inline`), and the style sheet text is an opaque parameter (`Cfg.cssText`; the one remaining
-  known finding KF-C18-4 lives there).  The eight findings repaired in /repo (a71a4f0 … 41ddec8) are no longer excluded.
+  modelled (`Supported`, `Block`/`Inline`), and the style sheet text is a parameter of the token model (`Cfg.cssText`; its
+  writer is covered by `css_section_partial`).  All nine findings were repaired in /repo (a71a4f0 … 22e9516); none is excluded.
 -/
 import OdfModel.XhtmlLemmas
 import OdfModel.XhtmlText
@@ -129,7 +129,7 @@ theorem vocabulary_dispatch : ∀ e ∈ vocabulary, dispatch e.1 = e.2 := by
     whose arguments are literals / `quoteattr(…)`, nor collected output, nor the note number). -/
 theorem handlers_escape :
     coreEscapes = (true, true, true) ∧ handlerWrites.all (fun hw => !hw.2.contains 9) = true ∧
-    nsdictInjective = true := by
+    nsdictInjective = true ∧ cssWritesSafe = true := by
   decide +kernel
 
 /-! ## The supported documents -/
@@ -319,7 +319,7 @@ theorem balanced_partial (cfg : Cfg) (doc : Node) (h : Supported doc) (toks : Li
     * as a `text` token — rendered `escape(s)`: no `<`, no `>`, and the reference decoder gives `s` back, so every `&`
       in it begins `&amp;`, `&lt;` or `&gt;`;
     * as an attribute value of an `otag`/`etag` token — rendered `name=quoteattr(v)` (see `attr_value_quoted`);
-    * as the opaque style sheet `Raw.css` (NOT escaped by the converter: obligation `cssOK`, finding KF-C18-4).
+    * as the style sheet `Raw.css` inside the CDATA section — written through `cdataSafe` (`css_section_partial`).
     All other `raw` tokens are constants of the converter or the decimal note number (`raw_tokens_constant`). -/
 theorem text_token_escaped (s : Str) :
     renderTok (.text s) = sxEscape s ∧ 60 ∉ renderTok (.text s) ∧ 62 ∉ renderTok (.text s) ∧
@@ -347,9 +347,17 @@ theorem raw_tokens_constant (r : Raw) :
 theorem escaped_no_new_markup (ts : List Tok) : (render ts).count 60 = (render (ts.map shape)).count 60 :=
   count_lt_render ts
 
-/-- the single obligation on the opaque style sheet text (checked by the oracle on the real output, NOT proved — the
-    converter copies style names and property values unescaped: finding KF-C18-4) -/
-def cssOK (css : Str) : Prop := ¬ (Xml.CDC <:+: css)
+/-- **the style sheet** (the former obligation `cssOK`; repaired by 22e9516): the style sheet text stays a parameter of
+    the token model, but its writer is now covered — the regenerated AST fact `cssWritesSafe` (`handlers_escape`) says every
+    selector and property line goes through `cdataSafe`, and for such lines the CDATA section is read back exactly and ends
+    at the converter's own `]]>` (`Xhtml.css_section_read_back`, restated here). -/
+theorem css_section_partial (ls : List Str) (acc Y : Str) (fuel : Nat)
+    (hx : ∀ l ∈ ls, ∀ c ∈ l, Spec.isXmlChar c = true ∧ c ≠ 13)
+    (hf : (ls.flatMap (fun l => cdataSafe (l ++ [10])) ++ [47, 42] ++ Xml.CDC ++ Y).length + 1 ≤ fuel) :
+    ∃ fuel', Y.length + 1 ≤ fuel' ∧
+      Spec.parseForest fuel true acc (ls.flatMap (fun l => cdataSafe (l ++ [10])) ++ [47, 42] ++ Xml.CDC ++ Y) =
+        Spec.parseForest fuel' false (acc ++ (ls.flatMap (· ++ [10]) ++ [47, 42])) Y :=
+  css_section_read_back ls acc Y fuel hx hf
 
 /-! ## complete -/
 
